@@ -62,6 +62,23 @@ theorem fromFileName_not_endsMd (s : Str) : endsMd (fromFileName s) = false := b
 theorem trimMd_append_md (u : Str) : trimMd (u ++ ['.', 'm', 'd']) = trimMd u := by
   exact trimMd_append_md_core u
 
+/-- The written url is never empty (repair D34): an empty url is not a link when the note is read
+again (`[[|text]]`), so the reference would be lost. -/
+theorem written_url_nonempty (K D : List Str) (hK : NormalPath K) (hD : NormalPath D) (hne : K ≠ []) :
+    toRelLinkUrl (renderNames K) (renderNames D) ≠ [] := by
+  have _ := hD -- not needed: the url is non-empty for any linking directory
+  exact toRelLinkUrl_ne_nil K D hK hne
+
+/-- The pre-repair writer (defect D34) does *not* satisfy it: a note `d` linked from a note in
+directory `d` got the empty url. -/
+theorem bare_writer_counterexample : toRelLinkUrlBare ['d'] ['d'] = [] := by
+  decide
+
+/-- non-vacuity for `written_url_nonempty`, and the repaired value at the pre-repair counterexample -/
+example : NormalPath [['d']] ∧ toRelLinkUrl ['d'] ['d'] = ['.', '.', '/', 'd']
+    ∧ fromRelLinkUrl ['.', '.', '/', 'd'] ['d'] = ['d'] := by
+  decide
+
 /-- The pre-repair resolver (`join` without normalisation, defect D1) does *not* satisfy the
 statement: the link written from `d/` to `c` is `../c`, which it resolves to `d/../c`. -/
 theorem join_resolver_counterexample :
